@@ -97,7 +97,7 @@ func C03(c *ev.Ctx) {
 	progs := goosegen.ConcTemplates(uint64(c.Seed))
 	if !c.Quick() {
 		// thorough: two more parameter instantiations of every template (other constants / iteration counts)
-		for extra := uint64(1); extra <= 2; extra++ {
+		for extra := uint64(1); extra <= 5; extra++ {
 			for _, p := range goosegen.ConcTemplates(uint64(c.Seed)*31 + extra) {
 				p.Key = fmt.Sprintf("%s#%d", p.Key, extra)
 				progs = append(progs, p)
